@@ -95,6 +95,9 @@ type c16Client struct {
 	callbacks []c16Callback
 	beyond    []string
 	maxSize   int64
+	calls     int
+	runaway   string
+	abort     context.CancelFunc
 }
 
 func c16Hash(a, b, c, d uint64) uint64 {
@@ -128,6 +131,23 @@ func (c *c16Client) GetRawEntries(ctx context.Context, start, end int64) (*ct.Ge
 	key := [2]int64{start, end}
 	att := c.attempts[key]
 	c.attempts[key]++
+	c.calls++
+	if c.runaway != "" {
+		// the scenario has been aborted: stop feeding the trace
+		c.mu.Unlock()
+		return nil, errors.New("verif: scenario aborted")
+	}
+	if att > 400 || c.calls > 40*int(c.maxSize+100) {
+		// no contract-abiding run asks for the same range hundreds of times (at most 3 scripted errors per answer) or makes
+		// that many requests: a request loop that does not advance. Abort the scenario instead of spinning for ever.
+		c.runaway = fmt.Sprintf("GetRawEntries(%d,%d) asked %d times (%d requests in all, tree size %d)", start, end, att+1, c.calls, c.size)
+		c.out.T("cancel", "ok")
+		if c.abort != nil {
+			c.abort()
+		}
+		c.mu.Unlock()
+		return nil, errors.New("verif: scenario aborted")
+	}
 	c.out.T(fmt.Sprintf("call %d %d", start, end), "ok")
 	c.mu.Unlock()
 
@@ -296,6 +316,9 @@ func c16Run(out *verifkit.Out, p *c16Params) {
 		synctest.Run(func() {
 			ctx, cancel := context.WithCancel(context.Background())
 			defer cancel()
+			c.mu.Lock()
+			c.abort = cancel
+			c.mu.Unlock()
 			fo := FetcherOptions{BatchSize: p.batch, ParallelFetch: p.par, StartIndex: p.start, EndIndex: p.end, Continuous: p.cont}
 			var f *Fetcher
 			var s *Scanner
@@ -395,6 +418,10 @@ func c16Run(out *verifkit.Out, p *c16Params) {
 	}
 
 	// ---- implementation-side oracle: the property itself on what the real code did
+	if c.runaway != "" {
+		out.Fail("request-loop "+key, c.runaway)
+		cancelled = true // what was delivered before the abort is still checked for duplicates, range and payload
+	}
 	if timedOut {
 		out.Fail("no-termination "+key, "Run/ScanLog had not returned after 1000 h of virtual time")
 	}
